@@ -26,6 +26,9 @@ pub enum N {
     Float(f64),
     Str(String),
     Repr(String),
+    /// an unresolved representation carrying a tag; the index selects one of `REPR_TAGS`, several of
+    /// which spell the same tag URI with a different handle / suffix split
+    TaggedRepr(String, u8),
     Bad,
     Seq(Vec<N>),
     Map(Vec<(N, N)>),
@@ -40,6 +43,7 @@ impl N {
             N::Float(f) => json!({"float_bits": format!("{:016x}", f.to_bits())}),
             N::Str(s) => json!({"str": s}),
             N::Repr(s) => json!({"repr": s}),
+            N::TaggedRepr(s, t) => json!({"repr": s, "tag": t}),
             N::Bad => json!("bad"),
             N::Seq(v) => json!({"seq": v.iter().map(|x| x.to_json()).collect::<Vec<_>>()}),
             N::Map(m) => json!({"map": m.iter().map(|(k, v)| json!([k.to_json(), v.to_json()])).collect::<Vec<_>>()}),
@@ -65,6 +69,9 @@ impl N {
             return N::Str(s.as_str().unwrap_or("").to_string());
         }
         if let Some(s) = j.get("repr") {
+            if let Some(t) = j.get("tag").and_then(|t| t.as_u64()) {
+                return N::TaggedRepr(s.as_str().unwrap_or("").to_string(), t as u8);
+            }
             return N::Repr(s.as_str().unwrap_or("").to_string());
         }
         if let Some(v) = j.get("seq") {
@@ -75,6 +82,13 @@ impl N {
         }
         N::Null
     }
+}
+
+pub const REPR_TAGS: [(&str, &str); 5] = [("tag:yaml.org,2002:", "str"), ("", "tag:yaml.org,2002:str"), ("tag:yaml.org,", "2002:str"), ("!", "t"), ("", "!t")];
+
+fn repr_tag(i: u8) -> Option<saphyr::Tag> {
+    let (h, s) = REPR_TAGS[i as usize % REPR_TAGS.len()];
+    Some(saphyr::Tag { handle: h.to_string(), suffix: s.to_string() })
 }
 
 fn scalar_of(n: &N, owned_cow: bool) -> Option<Scalar<'static>> {
@@ -98,6 +112,7 @@ fn scalar_of(n: &N, owned_cow: bool) -> Option<Scalar<'static>> {
 pub fn build_yaml(n: &N, owned_cow: bool) -> Yaml<'static> {
     match n {
         N::Repr(s) => Yaml::Representation(Cow::Owned(s.clone()), ScalarStyle::Plain, None),
+        N::TaggedRepr(s, t) => Yaml::Representation(Cow::Owned(s.clone()), ScalarStyle::Plain, repr_tag(*t)),
         N::Bad => Yaml::BadValue,
         N::Seq(v) => Yaml::Sequence(v.iter().map(|x| build_yaml(x, owned_cow)).collect()),
         N::Map(m) => {
@@ -114,6 +129,7 @@ pub fn build_yaml(n: &N, owned_cow: bool) -> Yaml<'static> {
 pub fn build_owned(n: &N) -> YamlOwned {
     match n {
         N::Repr(s) => YamlOwned::Representation(s.clone(), ScalarStyle::Plain, None),
+        N::TaggedRepr(s, t) => YamlOwned::Representation(s.clone(), ScalarStyle::Plain, repr_tag(*t)),
         N::Bad => YamlOwned::BadValue,
         N::Seq(v) => YamlOwned::Sequence(v.iter().map(build_owned).collect()),
         N::Map(m) => {
@@ -132,6 +148,7 @@ pub fn build_marked(n: &N, owned_cow: bool, span_seed: &mut usize) -> MarkedYaml
     let span = Span::new(saphyr::Marker::new(*span_seed, 1, *span_seed), saphyr::Marker::new(*span_seed + 1, 1, *span_seed + 1));
     let data = match n {
         N::Repr(s) => YamlData::Representation(Cow::Owned(s.clone()), ScalarStyle::Plain, None),
+        N::TaggedRepr(s, t) => YamlData::Representation(Cow::Owned(s.clone()), ScalarStyle::Plain, repr_tag(*t)),
         N::Bad => YamlData::BadValue,
         N::Seq(v) => YamlData::Sequence(v.iter().map(|x| build_marked(x, owned_cow, span_seed)).collect()),
         N::Map(m) => {
@@ -151,6 +168,7 @@ pub fn build_marked_owned(n: &N, span_seed: &mut usize) -> MarkedYamlOwned {
     let span = Span::new(saphyr::Marker::new(*span_seed, 2, 0), saphyr::Marker::new(*span_seed + 3, 2, 3));
     let data = match n {
         N::Repr(s) => YamlDataOwned::Representation(s.clone(), ScalarStyle::Plain, None),
+        N::TaggedRepr(s, t) => YamlDataOwned::Representation(s.clone(), ScalarStyle::Plain, repr_tag(*t)),
         N::Bad => YamlDataOwned::BadValue,
         N::Seq(v) => YamlDataOwned::Sequence(v.iter().map(|x| build_marked_owned(x, span_seed)).collect()),
         N::Map(m) => {
@@ -367,6 +385,7 @@ fn scalar_key() -> impl Strategy<Value = N> {
         1 => Just(N::Null),
         1 => any::<bool>().prop_map(N::Bool),
         1 => proptest::sample::select(KEY_TEXTS).prop_map(|s| N::Repr(s.to_string())),
+        1 => (proptest::sample::select(vec!["a", "1", "x"]), 0u8..5).prop_map(|(s, t)| N::TaggedRepr(s.to_string(), t)),
         1 => Just(N::Bad),
     ]
 }
@@ -389,7 +408,7 @@ pub fn probes_for(node: &N, extra: &[String]) -> Vec<String> {
     if let N::Map(p) = node {
         for (k, _) in p {
             let t = match k {
-                N::Str(s) | N::Repr(s) => s.clone(),
+                N::Str(s) | N::Repr(s) | N::TaggedRepr(s, _) => s.clone(),
                 N::Int(i) => i.to_string(),
                 N::Float(f) => format!("{f:?}"),
                 N::Null => "~".into(),
@@ -415,6 +434,9 @@ fn respell(n: &N, sel: u8) -> N {
     match n {
         N::Float(f) if f.is_nan() => N::Float(f64::from_bits(0x7ff8_0000_0000_0000 | (sel as u64 + 1))),
         N::Float(f) if *f == 0.0 => N::Float(if sel % 2 == 0 { 0.0 } else { -0.0 }),
+        // another handle / suffix split of a tag: a different node unless Tag equality says otherwise,
+        // and then it has to hash equally
+        N::TaggedRepr(s, t) => N::TaggedRepr(s.clone(), t.wrapping_add(sel % 3)),
         N::Seq(v) => N::Seq(v.iter().map(|x| respell(x, sel)).collect()),
         N::Map(m) => N::Map(m.iter().map(|(k, v)| (respell(k, sel), respell(v, sel))).collect()),
         other => other.clone(),
@@ -435,7 +457,7 @@ impl Property for C20P {
     }
     fn rule(&self) -> String {
         "(lookups) proptest mappings of 0..6 pairs whose keys are strings from a pool of type-like texts, integers, floats (incl. NaN \
-         payloads, +-0), null, booleans, unresolved representations, BadValue, sequences and mappings, built as Yaml (borrowed and owned \
+         payloads, +-0), null, booleans, unresolved representations (untagged, and tagged with several handle / suffix splits of the same URI), BadValue, sequences and mappings, built as Yaml (borrowed and owned \
          Cow), YamlOwned, MarkedYaml and MarkedYamlOwned; probes = every key's text, its upper / lower case and padded variants, the \
          pool, generated strings and an absent string; model: found(k) iff some key is a resolved string equal to k (last such entry). \
          as_mapping_get, contains_mapping_key, Index<&str> (panic iff absent), as_mapping_get_mut, IndexMut<&str> and get(&String node) \
